@@ -22,6 +22,33 @@ def iter_both(L, q):
         if nx.variant == 'None':
             break
         rev.append((list(sbytes(nx.fields[0].fields[0])), list(sbytes(nx.fields[0].fields[1]))))
+    # the same through the other iteration entry points: IntoIterator for &Qualifiers / &mut Qualifiers, iter_mut from both ends,
+    # and the exact size reported up front
+    it = I.call("<&Qualifiers as IntoIterator>::into_iter", [qr])
+    sh = I.call("<qualifiers::Iter<'_> as Iterator>::size_hint", [Ref([it], 0)])
+    n_into = 0
+    while I.call("<qualifiers::Iter<'_> as Iterator>::next", [Ref([it], 0)]).variant != 'None':
+        n_into += 1
+    mf, mr = [], []
+    it = I.call('Qualifiers::iter_mut', [qr])
+    shm = I.call("<qualifiers::IterMut<'_> as Iterator>::size_hint", [Ref([it], 0)])
+    while True:
+        nx = I.call("<qualifiers::IterMut<'_> as Iterator>::next", [Ref([it], 0)])
+        if nx.variant == 'None':
+            break
+        mf.append((list(sbytes(nx.fields[0].fields[0])), list(sbytes(nx.fields[0].fields[1]))))
+    it = I.call("<&mut Qualifiers as IntoIterator>::into_iter", [qr])
+    while True:
+        nx = I.call("<qualifiers::IterMut<'_> as DoubleEndedIterator>::next_back", [Ref([it], 0)])
+        if nx.variant == 'None':
+            break
+        mr.append((list(sbytes(nx.fields[0].fields[0])), list(sbytes(nx.fields[0].fields[1]))))
+    hints = [(h.fields[0], h.fields[1].fields[0] if h.fields[1].variant == 'Some' else None) for h in (sh, shm)]
+    if n_into != len(fwd) or len(mf) != len(fwd) or len(mr) != len(rev) or any(h != (len(fwd), len(fwd)) for h in hints):
+        L.fail('iteration entry points disagree on the number of entries (iter / into_iter / iter_mut / size_hint)')
+    elif fwd:
+        L.check('iter_mut yields the same entries as iter, from both ends', b_and(obs_term_eq([list(x) for x in mf], [list(x) for x in fwd]),
+                                                                                obs_term_eq([list(x) for x in mr], [list(x) for x in rev])))
     return fwd, rev, I.call('Qualifiers::len', [qr]), I.call('Qualifiers::is_empty', [qr])
 
 
